@@ -5,7 +5,7 @@ from . import common
 PROP = "C01"
 LEVEL = "model_checking"
 RULE = (
-    "X-ENUM over the program families CTRL, CTRL2, EXPR, FUNC, FUNC2, FUNC3, FORFN, CONSTPROP, DEV, LIST, DEAD (compile-time constant tests guarding effects and calls) (+ witness families of open findings); "
+    "X-ENUM over the program families CTRL, CTRL2, EXPR, FUNC, FUNC2, FUNC3, FORFN, CONSTPROP, INTRINSIC, DEV, LIST, DEAD (compile-time constant tests guarding effects and calls) (+ witness families of open findings); "
     "for each program X-RUN explores every device/stack answer sequence over the per-program alphabet V "
     "(full product when it fits the cap, else <= 2 deviations) up to K effects / T yields, on the emitted IC10 "
     "(reference machine M, zeroed and poisoned initial registers) and on the reference executor R (CPython + Num); "
@@ -32,6 +32,7 @@ def build_cases(tier):
     cases += F.lists(tier, lens=range(2, 6))
     cases += F.dead(tier)
     cases += F.constprop(tier)
+    cases += F.intrinsic(tier)
     for c in F.forfn(tier)[:: (2 if tier == "quick" else 1)]:
         cases.append(dict(c, K=10))
     for c in F.func2(tier)[:: (4 if tier == "quick" else 2)]:
